@@ -201,6 +201,23 @@ contract(
 )
 
 contract(
+    PO, "compute_weights", variant_name="array-int", props=["C02", "C05"],
+    log_domain=True,
+    # the live-count history as the sampler stores it: an INTEGER array
+    # (np.array(state.nlive)); arithmetic on it must not stay in integers
+    params={"samples": "Seq(Real)", "nlive": "Seq(Int)",
+            "expectation": "Str"},
+    requires=["len(samples) >= 1",
+              "forall(i, 0, len(nlive), nlive[i] >= 1)"],
+    returns="Tuple(Real,Seq(Real))",
+    raises={"ValueError": "len(nlive) != len(samples) or "
+            "(expectation != 'logt' and expectation != 't')"},
+    ensures=CW_COMMON + [
+        f"forall(i, 0, len(samples), {NPI}[i] == nlive[i])",
+    ],
+)
+
+contract(
     PO, "compute_weights", variant_name="array", props=["C02", "C05"],
     log_domain=True,
     params={"samples": "Seq(Real)", "nlive": "Seq(Real)",
